@@ -28,8 +28,19 @@ def backends():
     return ["cbc", "glpk_noimport"] if A.cbc_available() else ["glpk_noimport"]
 
 
+DE_SWEEP = [0.1, 0.2, 0.3, 0.4, 0.6, 0.8, 0.9, 1.1, 1.3, 1.9]  # rounding-sensitive values differ with the number of pairs
+
+
 def shards(tier, seed):
-    return A.make_shards(tier, "opt", extra={"full": tier == "thorough", "dup_every": 7})
+    tasks = A.make_shards(tier, "opt", extra={"full": tier == "thorough", "dup_every": 7})
+    sweep = [dict(n=4, k=1, T=2, labels=["x"], sym=True), dict(n=5, k=1, T=2, labels=["x"], sym=True),
+             dict(n=3, k=2, T=2, labels=["x"], sym=True)]
+    if tier == "thorough":
+        sweep += [dict(n=4, k=1, T=2, labels=["x", "y"]), dict(n=6, k=1, T=1, labels=["x", "y"], sym=True)]
+    for u in sweep:
+        for i in range(0, len(DE_SWEEP), 2):
+            tasks.append({"universe": u, "shard": 0, "nshards": 1, "sweep": DE_SWEEP[i:i + 2]})
+    return tasks
 
 
 def judge(spec, recipe, backend, obs, opt):
@@ -49,7 +60,11 @@ def run(task):
     for spec in A.iter_task_specs(task):
         labels = A.spec_label_set(spec)
         n = len(spec["annotators"])
-        for recipe in A.menu(labels, full):
+        recipes = A.menu(labels, full)
+        if task.get("sweep"):
+            recipes = [{"k": "pos", "de": x} for x in task["sweep"]] + \
+                      [{"k": "comb", "a": 1.0, "b": 1.0, "de": x} for x in task["sweep"][:1]]
+        for recipe in recipes:
             opt = optimum(spec, recipe, cover=COVER)
             key = h([spec, recipe])
             res["state_set"].append(key)
